@@ -102,8 +102,10 @@ def _run(tier, seed):
                          "content": content}
     d = workdir("c04")
     dump(programs, d / "progs.json")
-    dump(cases, d / "cases.json")
-    r = run_tlc("KernelRun", "KernelRun.cfg", env={"VF_PROGS": d / "progs.json", "VF_CASES": d / "cases.json"})
+    # chunked runs (each with only the programs it needs): the thorough tier's constants are too large for one TLC run
+    from ..irtrees import machine_chunks
+
+    r = machine_chunks(programs, cases, d, "c04", per_chunk=2000)
     if len(r.lines) != len(cases):
         raise MachineryError(f"C04: {len(r.lines)} verdicts for {len(cases)} cases")
     lines = {l["case"]: l for l in r.lines}
@@ -217,8 +219,7 @@ def _run(tier, seed):
             obs_meta[cid] = m
     states, trans, ntr = r.distinct + g_states, r.generated + g_trans, 0
     if obs:
-        dump(obs, d / "obs.json")
-        r2 = run_tlc("KernelRun", "KernelRun.cfg", env={"VF_PROGS": d / "progs.json", "VF_CASES": d / "obs.json"})
+        r2 = machine_chunks([], obs, d, "c04obs", per_chunk=4000)
         if len(r2.lines) != len(obs):
             raise MachineryError(f"C04 traces: {len(r2.lines)} verdicts for {len(obs)}")
         states += r2.distinct
